@@ -3,6 +3,7 @@
 import argparse
 import importlib
 import json
+import random
 import os
 import sys
 import traceback
@@ -28,6 +29,30 @@ def main():
             return rc
         proved = ctx.proofs(gen=True)
         mod.run(ctx)
+        # the thorough tier goes through its generators again with further seeds derived from VERIF_SEED (the fixed probes and
+        # the exhaustive sweeps of a property repeat; the counts of all rounds are added up, the rest describes round 0)
+        rounds = int(os.environ.get("VERIF_ROUNDS", "3" if a.tier == "thorough" else "1"))
+        if rounds > 1 and not ctx.violations:
+            first = dict(ctx.cov)
+            tot = {k: v for k, v in first.items() if isinstance(v, int) and not isinstance(v, bool)
+                   and (k in ("evaluations", "distinct_nontrivial", "traces_validated_against_impl")
+                        or k.endswith(("_checked", "_failures", "_differences", "_crossed", "_judged_by_rfc")))}
+            log = []
+            for r in range(1, rounds):
+                ctx.seed = seed + 7919 * r
+                ctx.rng = random.Random(ctx.seed * 1000003 + int(a.prop[1:]))
+                ctx.cov = {}
+                mod.run(ctx)
+                log.append({"seed": ctx.seed, **{k: v for k, v in ctx.cov.items() if k in tot and isinstance(v, int)}})
+                for k in tot:
+                    if isinstance(ctx.cov.get(k), int) and not isinstance(ctx.cov.get(k), bool):
+                        tot[k] += ctx.cov[k]
+                if ctx.violations:
+                    break
+            ctx.cov = first
+            ctx.cov.update(tot)
+            ctx.cov["rounds"] = [{"seed": seed, "round": 0}] + log
+            ctx.seed = seed
         if not proved and not any(v["found"] for v in ctx.violations):
             # a proof obligation no longer checks and no failing input turned up
             ctx.violation("proof", "proof obligations of Echse.Props.%s not discharged: %s"
